@@ -1,7 +1,7 @@
 '''C19 - a failing command is never reported as done; output captured.'''
 import ast
 
-from ..rules import extcmd, sched_worker
+from ..rules import extcmd, sched_worker, patterns
 from ..astutil import txt, call_name
 from ..mutate import (Variant, edit_module, find_func, replace_first,
                       remove_stmt, insert_stmt, parse_stmts, parse_expr)
@@ -52,9 +52,10 @@ def check(ctx):
     ctx.run(extcmd.check_start_scope)
     ctx.run(extcmd.check_call_loop)
     ctx.run(sched_worker.check_wrk1)
+    ctx.run(patterns.check_patterns, ID)
 
 
-def variants(program):
+def _variants(program):
     out = []
 
     def add(name, kind, mod, editor, expect=None, quick=False, note=''):
@@ -296,3 +297,8 @@ def variants(program):
         CODE, _one_target_per_call(True))
 
     return out
+
+
+def variants(program):
+    from ..variants import patterns as _pv
+    return list(_variants(program)) + _pv.variants(program, ID)
